@@ -656,6 +656,12 @@ pub fn layer_b(report: &Report, cli: &Cli, global: &GlobalContext<C>) {
         ("web3+account", vec![(&w3, two.clone()), (&acc, two.clone())]),
         ("web3+web3", vec![(&w3, two.clone()), (&w3b, two.clone())]),
         ("account+account", vec![(&acc, two.clone()), (&acc2, two.clone())]),
+        // credentials presented without any statement: everything about the credential itself
+        // (issuer signature, commitments, holder, contract) must still be checked
+        // (an account credential without statements carries no proof at all - nothing to bind)
+        ("web3 without statements", vec![(&w3, vec![])]),
+        ("web3 without statements + web3", vec![(&w3, vec![]), (&w3b, two.clone())]),
+        ("account + web3 without statements", vec![(&acc, two.clone()), (&w3, vec![])]),
     ];
     for (name, creds) in &bases {
         let base_w = json!({"layer": "web3id-presentation-perturbation", "credentials": name});
@@ -695,7 +701,10 @@ pub fn layer_b(report: &Report, cli: &Cli, global: &GlobalContext<C>) {
             if re_sign && (label.starts_with("linking proof") || label.contains("creation time")) {
                 return;
             }
-            let expect = if re_sign && (label.contains(": a type ") || label.contains("network mainnet")) { &Expect::RejectOrOtherRequest } else { expect };
+            // A credential without statements has no proof that binds it to the challenge or to its
+            // neighbours: its holder can sign another presentation containing it. What the verifier
+            // returns is then another request; an outsider (no re-signing) is rejected as always.
+            let expect = if re_sign && (label.contains(": a type ") || label.contains("network mainnet") || name.contains("without statements")) { &Expect::RejectOrOtherRequest } else { expect };
             let mut w = base_w.clone();
             w["perturbation"] = json!(label);
             if re_sign {
